@@ -43,6 +43,9 @@ def main():
         muts = [m for m in muts if ps & set(m["props"])]
     results = []
     for m in muts:
+        if m.get("equivalent"):
+            print(f"{m['id']:34s} skipped (documented as equivalent / outside the wording)")
+            continue
         wt = tempfile.mkdtemp(prefix="mut_", dir="/tmp")
         os.rmdir(wt)
         r = sh(["git", "-C", "/repo", "worktree", "add", "-q", "--detach", wt, "HEAD"])
